@@ -32,6 +32,9 @@ type Pred struct {
 // DetectorPanic is the value a trap detector panics with.
 type DetectorPanic struct{ Ext int }
 
+// VerifUserPanic marks the value for the kernel.
+func (DetectorPanic) VerifUserPanic() {}
+
 // Traps reports whether raw makes the detector panic.
 func (p Pred) Traps(raw []byte) bool {
 	if p.PanicPrefix == "" {
